@@ -124,6 +124,10 @@ def cases(tier, inst):
                 yield {"streams": ms, "htc": [hh, hc], "uset": ui, "inst": list(inst), "cost": (hh != 1.0 and ui == 1)}
         # area targeting requested WITHOUT the balanced composite curves as a graph (the two options share code)
         yield {"streams": ms, "htc": [0.5, 2.0], "uset": 0, "inst": list(inst), "no_bcc": True}
+    for ms in P.crowds(inst, K, dts=(1,)):           # problems of realistic size (10-40 streams): many enthalpy intervals
+        if len({A.kind_of(s) for s in ms}) == 2:
+            for ui in (0, 1):
+                yield {"streams": ms, "htc": [0.5, 2.0], "uset": ui, "inst": list(inst)}
     if tier == "quick":
         for ms in P.stream_multisets(inst, K, 3, cps=(1,), dts=(1,), iso=False, min_n=3):
             if len({A.kind_of(s) for s in ms}) == 2:
@@ -273,7 +277,7 @@ SUBCHECKS = {
         describe="pinch_analysis_service with area targeting: balanced spans, area vs an independent Bath-formula reference from streams and assigned utility duties, cost laws",
         rule="case = (stream multiset with both kinds, film coefficients, utility set); non-trivial = the reference has >=3 enthalpy intervals; outcomes = distinct (area, units)",
         cases=cases, run=run,
-        bound=lambda t: "multisets <=2 (K=4, dt=d/2, with latent) x 2 film-coefficient pairs x {default, isothermal utilities} + 3-multisets" if t == "quick"
+        bound=lambda t: "multisets <=2 (K=4, dt=d/2, with latent) x 2 film-coefficient pairs x {default, isothermal utilities} + 3-multisets + problems of 10-40 streams" if t == "quick"
         else "multisets <=3 (K=4, dt=d/2, with latent) x 2 film-coefficient pairs x 2 utility sets",
     ),
     "decimals": SubCheck(
